@@ -11,7 +11,7 @@ import (
 
 func init() {
 	register("C12", propMeta{
-		Explanation: "Types + E-GUARD + E-PROV + E-CONST + E-PANIC on common/messages and common/bridgefingerprint. O-1 one schema per message: for each of the six messages the Go type handed to json.Marshal by the encoder is the struct type the decoder unmarshals into (a *T of that T, not a pointer to a pointer, so JSON null cannot leave a nil message), and the client messages share the ClientVersion framing. O-2 success only through the validations: a nil-error return of each decoder is reachable only through the certifying edge of each validation - major version == \"1\" (proxy poll, answer), first line == ClientVersion and two parts present (client poll), Sid != \"\", Answer != \"\", Offer != \"\", NAT in the accepted set, FingerprintFromHexString err == nil, fingerprint length in {20, 32} with FingerprintFromHexString returning nothing but FingerprintFromBytes' verdict, Status != \"\", 'client match' implies Offer != \"\", not (Error == \"\" and Answer == \"\"). O-3 defaults: absent NAT maps to unknown, absent fingerprint to the default bridge fingerprint (same constant in encoder and decoder, equal to the fingerprint of the broker's built-in bridge line), unrecognised proxy type to ProxyUnknown, relay-pattern awareness is AcceptedRelayPattern != nil. O-4 no termination construct in the two packages (strings.Split(...)[0] is a table row). O-5 fields travel verbatim: every encoder stores its parameters unmodified into the message struct and every decoder returns the decoded fields unmodified apart from the documented defaults. Added after the second seeding round: O-3 DecodePollResponseWithRelayURL hands on \"unknown\" for an absent NAT type on every success return (the raw field may be returned only behind its != \"\" edge); the NAT vocabulary test may live in a same-package helper that receives the NAT field; success returns are identified by may-be-nil analysis of the error result rather than by a literal nil.",
+		Explanation: "Types + E-GUARD + E-PROV + E-CONST + E-PANIC on common/messages and common/bridgefingerprint. O-1 one schema per message: for each of the six messages the Go type handed to json.Marshal by the encoder is the struct type the decoder unmarshals into (a *T of that T, not a pointer to a pointer, so JSON null cannot leave a nil message), and the client messages share the ClientVersion framing. O-2 success only through the validations: a nil-error return of each decoder is reachable only through the certifying edge of each validation - major version == \"1\" (proxy poll, answer), first line == ClientVersion and two parts present (client poll), Sid != \"\", Answer != \"\", Offer != \"\", NAT in the accepted set, FingerprintFromHexString err == nil, fingerprint length in {20, 32} with FingerprintFromHexString returning nothing but FingerprintFromBytes' verdict, Status != \"\", 'client match' implies Offer != \"\", not (Error == \"\" and Answer == \"\"). O-3 defaults: absent NAT maps to unknown, absent fingerprint to the default bridge fingerprint (same constant in encoder and decoder, equal to the fingerprint of the broker's built-in bridge line), unrecognised proxy type to ProxyUnknown, relay-pattern awareness is AcceptedRelayPattern != nil. O-4 no termination construct in the two packages (strings.Split(...)[0] is a table row). O-5 fields travel verbatim: every encoder stores its parameters unmodified into the message struct and every decoder returns the decoded fields unmodified apart from the documented defaults. Added after the second seeding round: O-3 DecodePollResponseWithRelayURL hands on \"unknown\" for an absent NAT type on every success return (the raw field may be returned only behind its != \"\" edge); the NAT vocabulary test may live in a same-package helper that receives the NAT field; success returns are identified by may-be-nil analysis of the error result rather than by a literal nil. Added after the third seeding round: a fixed-size buffer handed to hex.Decode is sized from the input (DecodedLen) or the input length is tested first.",
 		NotDecided:  "JSON fidelity for arbitrary strings and integer ranges (encoding/json, trusted), round-trip equality as a value-level statement.",
 		Assumptions: []string{"encoding/json round-trips exported fields of a struct type through the same struct type"},
 	}, runC12)
@@ -90,6 +90,30 @@ func runC12(c *Ctx) {
 	}
 	reached := c.checkTerminators(rule4, entries, nil)
 	c.checkConstIndexes(rule4+" (indexes)", reached)
+	// Decode into a caller-supplied buffer panics (index out of range) when the buffer is shorter than the
+	// decoded input: the buffer must be sized from the input (DecodedLen), or the allocating DecodeString used
+	for _, fn := range reached {
+		for _, ci := range callsIn(fn) {
+			n := calleeName(ci)
+			if n != "encoding/hex.Decode" && n != "(*encoding/base64.Encoding).Decode" && n != "(*encoding/base32.Encoding).Decode" {
+				continue
+			}
+			args := ci.Common().Args
+			dst := args[len(args)-2]
+			sized := false
+			flows(dst, func(v ssa.Value) bool {
+				if ms, ok := v.(*ssa.MakeSlice); ok {
+					sized = flows(ms.Len, func(w ssa.Value) bool {
+						cc, _, okc := callResult1(w)
+						return okc && strings.HasSuffix(calleeName(cc), "DecodedLen")
+					})
+					return true
+				}
+				return false
+			})
+			c.check(sized, rule4, p.FnName(fn)+" decodes into a buffer sized from the input", p.instrPos(ci), "", "the destination of Decode is not sized with DecodedLen of the input (a fixed-size buffer): a longer well-formed input makes the decoder index out of range and the request handler panics instead of returning an error")
+		}
+	}
 	c.okTrivial(rule4, fmt.Sprintf("%d functions examined", len(reached)), "-", "")
 
 	// ---------- O-5 ----------
@@ -411,6 +435,29 @@ func (c *Ctx) checkMessageDefaults() {
 				if _, f, okf := fieldOfAddr(st.Addr); okf && f.Name() == "Fingerprint" {
 					s, isC := constString(st.Val)
 					ok = isC && s == val && len(emptyFP) > 0 && reachableWithout(fn, st, emptyFP) == nil
+					if ph, isPhi := strip(st.Val).(*ssa.Phi); isPhi && len(emptyFP) > 0 {
+						// value-selecting form: the default behind the empty edge, the field itself otherwise
+						sawDefault, good := false, true
+						for i, e := range ph.Edges {
+							pred := ph.Block().Preds[i]
+							last := pred.Instrs[len(pred.Instrs)-1]
+							if s, isC := constString(strip(e)); isC {
+								if s != val || reachableWithout(fn, last, emptyFP) != nil {
+									good = false
+								}
+								sawDefault = true
+							} else if _, f2, okf2 := fieldLoad(e); okf2 && f2.Name() == "Fingerprint" {
+								for _, ed := range emptyFP {
+									if ed.To() == pred || reachPath(ed.To(), pred, nil) != nil {
+										good = false
+									}
+								}
+							} else {
+								good = false
+							}
+						}
+						ok = good && sawDefault
+					}
 				}
 			})
 			c.check(ok, rule, "common/messages."+fnName+" defaults an absent fingerprint to the default bridge", p.Pos(fn.Pos()), "", "an absent fingerprint is not replaced by defaultBridgeFingerprint exactly on the empty edge")
